@@ -169,7 +169,11 @@ func runC07(t *testing.T, tier string) int {
 	if tier == "thorough" {
 		names = []string{"a", "b", "a b", "é", "AND"}
 	}
-	mapVals := []string{"", "a", "ab", "b"}
+	// "A": values (and, thorough, names) that differ from a literal only in letter case
+	mapVals := []string{"", "a", "ab", "b", "A"}
+	if tier == "thorough" {
+		names = append(names, "A")
+	}
 	maps := allMaps(names, mapVals)
 	bs := basics(names, values)
 	ts := terms(bs)
